@@ -134,3 +134,26 @@ Theorem C02_late_update_sliding : forall c id ts now s,
         (filter (fun t => in_twin t ts) (s_trig s)).
 Proof. exact sliding_late_update. Qed.
 Print Assumptions C02_late_update_sliding.
+
+(* ---- the watermark is monotone across BOTH of its writers (an accepted event, the idle-source advance):
+   read after every operation of any history, under any configuration and any clock readings, the model's
+   current watermark never moves backwards (wm_regress = index of the first observation below its predecessor) *)
+From SV Require Import Spec.WmMonoSpec Proofs.WmMono.
+Theorem C02_watermark_never_regresses : forall c h, wm_regress (run_curs c st0 h) = None.
+Proof. exact model_never_regresses. Qed.
+Print Assumptions C02_watermark_never_regresses.
+
+Theorem C02_event_never_lowers_watermark : forall ooo now ts w,
+  wm_le (cur w) (cur (update_event_time ooo now ts w)) = true.
+Proof. exact event_never_lowers_watermark. Qed.
+Print Assumptions C02_event_never_lowers_watermark.
+
+Theorem C02_tick_never_lowers_watermark : forall ooo idle now w,
+  wm_le (cur w) (cur (tick ooo idle now w)) = true.
+Proof. exact tick_never_lowers_watermark. Qed.
+Print Assumptions C02_tick_never_lowers_watermark.
+
+Example C02_idle_then_newer_event :
+  let c := {| size := 10; ooo := 5; lateness := 0; idle := 1000 |} in
+  run_curs c st0 [Add 1 100 0; Tick 5000; Add 2 200 5000] = [Some 95; Some 4995; Some 4995].
+Proof. exact idle_then_newer_event. Qed.
